@@ -139,6 +139,14 @@ def withName (existing : List Bytes) (name ext : Bytes) (content : Except Err By
 def rawExt (bits w h : Nat) : Bytes :=
   [46] ++ dec bits ++ [46] ++ dec w ++ [120] ++ dec h ++ [46, 105, 109, 103]
 
+/-- `"%d" % z` for any integer. -/
+def decInt (z : Int) : Bytes := if z < 0 then 45 :: dec (-z).toNat else dec z.toNat
+
+/-- `".%d.%dx%d.img" % (bits, w, h)` for arbitrary integers (`%d` accepts nothing but numbers: a name,
+    string or array raises TypeError before any path is built). -/
+def rawExtZ (bits w h : Int) : Bytes :=
+  [46] ++ decInt bits ++ [46] ++ decInt w ++ [120] ++ decInt h ++ [46, 105, 109, 103]
+
 def isRGB (c : CS) : Bool := c == .rgb || c == .inlRgb
 def isGray (c : CS) : Bool := c == .gray || c == .inlGray
 /-- `ImageWriter.export_image`: (file name, file content) for an image and a directory listing. -/
